@@ -397,7 +397,10 @@ func executeRoute(route *ast.Route, ctx *server.Context, interp *interpreter.Int
 	// query string. Without this, no interpreted route ever saw a query
 	// parameter. The raw, still-encoded query is what ExtractRawQueryParams
 	// wants: it unescapes each key and value itself.
-	requestPath := ctx.Request.URL.Path
+	// URL.Path is decoded, so a segment may contain a "?" of its own (%3F):
+	// it is escaped again, leaving the first "?" of requestPath to be the
+	// separator added here.
+	requestPath := strings.ReplaceAll(ctx.Request.URL.Path, "?", "%3F")
 	if raw := ctx.Request.URL.RawQuery; raw != "" {
 		requestPath += "?" + raw
 	}
